@@ -56,3 +56,32 @@ pub mod keygen {
         out[5] = core::mem::size_of::<ExpandedSecretKey>(); out[6] = core::mem::offset_of!(ExpandedSecretKey, scalar); out[7] = core::mem::offset_of!(ExpandedSecretKey, hash_prefix);
     }
 }
+
+// ---- C09: verification entry points for the group-level engine
+pub mod vf {
+    use crate::{Signature, Verifier, VerifyingKey};
+    #[inline(never)] pub fn vp_ed_verify(k: &VerifyingKey, sig: &[u8; 64], msg: &[u8]) -> bool { k.verify(msg, &Signature::from_bytes(sig)).is_ok() }
+    #[inline(never)] pub fn vp_ed_verify_strict(k: &VerifyingKey, sig: &[u8; 64], msg: &[u8]) -> bool { k.verify_strict(msg, &Signature::from_bytes(sig)).is_ok() }
+}
+
+// ---- C08 / C09: Ed25519ph entry points (feature digest) for the group-level engine; the prehash is SHA-512 of `msg`
+#[cfg(feature = "digest")]
+pub mod ph {
+    use crate::{Signature, SigningKey, VerifyingKey};
+    use sha2::{Digest, Sha512};
+    #[inline(never)] pub fn vp_ed_sign_ph(seed: &[u8; 32], msg: &[u8], ctx: &[u8], out: &mut [u8; 64]) -> bool {
+        let k = SigningKey::from_bytes(seed);
+        let mut h = Sha512::new(); h.update(msg);
+        let r = k.sign_prehashed(h, Some(ctx));
+        core::mem::forget(k);
+        match r { Ok(s) => { *out = s.to_bytes(); true } Err(_) => false }
+    }
+    #[inline(never)] pub fn vp_ed_verify_ph(k: &VerifyingKey, sig: &[u8; 64], msg: &[u8], ctx: &[u8]) -> bool {
+        let mut h = Sha512::new(); h.update(msg);
+        k.verify_prehashed(h, Some(ctx), &Signature::from_bytes(sig)).is_ok()
+    }
+    #[inline(never)] pub fn vp_ed_verify_ph_strict(k: &VerifyingKey, sig: &[u8; 64], msg: &[u8], ctx: &[u8]) -> bool {
+        let mut h = Sha512::new(); h.update(msg);
+        k.verify_prehashed_strict(h, Some(ctx), &Signature::from_bytes(sig)).is_ok()
+    }
+}
